@@ -22,8 +22,16 @@ func verifNewTx() *Transaction {
 		panic("verifNewTx: " + err.Error())
 	}
 	flags.CPU = 1
+	palette, err := option.NewPalette(&option.Environment{})
+	if err != nil {
+		panic("verifNewTx: " + err.Error())
+	}
+	palette.Disable()
 	return &Transaction{
+		Palette: palette,
 		Session: &Session{
+			stdout:       NewDiscard(),
+			stderr:       NewDiscard(),
 			stdinViewMap: NewViewMap(),
 			stdinLocker:  NewStdinLocker(),
 			mtx:          &sync.Mutex{},
